@@ -273,10 +273,25 @@ fn hll_config(ctx: &mut Ctx, case: &Json, stats: &mut Vec<Json>) {
                 // merged
                 if ci % 2 == 0 || cps[ci] <= 64 {
                     let mut u = HllUnion::new(lg_k);
+                    if _trial % 4 == 1 && lg_k >= 7 {
+                        // the union has had another job before: a coarser operand, then reset() -- a reset union is a new one
+                        let mut coarse = HllSketch::new(lg_k - 3, t);
+                        for j in 0..(40u64 << (lg_k - 3)) {
+                            coarse.update((salt ^ 0x5a5a, j));
+                        }
+                        u.update(&coarse);
+                        u.reset();
+                    }
                     for p in &parts {
                         u.update(p);
                     }
                     let r = u.to_sketch(t);
+                    if r.lg_config_k() != lg_k {
+                        ctx.violation(
+                            "union result is coarser than lg_max_k and its inputs allow",
+                            format!("HLL lg_k={} {} n={}: result has lg_k {}", lg_k, tname(t), n, r.lg_config_k()),
+                        );
+                    }
                     let bu = hll_b(&r);
                     let ub = [u.estimate(), u.lower_bound(SDS[0]), u.lower_bound(SDS[1]), u.lower_bound(SDS[2]), u.upper_bound(SDS[0]), u.upper_bound(SDS[1]), u.upper_bound(SDS[2])];
                     if !same7(&bu, &ub) {
@@ -318,6 +333,11 @@ fn cpc_config(ctx: &mut Ctx, case: &Json, stats: &mut Vec<Json>) {
     for trial in 0..trials {
         let salt = rng.next_u64();
         let mut s = CpcSketch::new(lg_k);
+        // a copy that is written and read back at three early checkpoints and then keeps receiving the stream: its
+        // estimator state (KxP, HIP) must go on exactly like the original's
+        let mut revived: Option<CpcSketch> = None;
+        // a union result taken mid-stream that keeps receiving the stream: it holds the same set of coupons as `s`
+        let mut continued: Option<CpcSketch> = None;
         let parts_n = rng.usize(2, 3);
         let mut parts: Vec<CpcSketch> = (0..parts_n).map(|_| CpcSketch::new(rng.range(lg_k as u64, lg_k as u64 + 1) as u8)).collect();
         det_check(ctx, &format!("CPC lg_k={}", lg_k), 0, &cpc_b(&s), s.is_empty());
@@ -325,6 +345,12 @@ fn cpc_config(ctx: &mut Ctx, case: &Json, stats: &mut Vec<Json>) {
         for i in 0..n_max {
             let item = (salt, i);
             s.update(item);
+            if let Some(r) = revived.as_mut() {
+                r.update(item);
+            }
+            if let Some(c) = continued.as_mut() {
+                c.update(item);
+            }
             let p = (i as usize) % parts_n;
             parts[p].update(item);
             if i % 4 == 0 {
@@ -333,6 +359,31 @@ fn cpc_config(ctx: &mut Ctx, case: &Json, stats: &mut Vec<Json>) {
             let n = i + 1;
             if ci < cps.len() && n == cps[ci] {
                 let b = cpc_b(&s);
+                if trial < 48 {
+                    if let Some(r) = &revived {
+                        ctx.evals(1);
+                        if !same7(&cpc_b(r), &b) {
+                            ctx.violation(
+                                "a sketch read back from its image drifts from the original under the same further updates",
+                                format!("CPC lg_k={} n={}: original {:?} revived {:?}", lg_k, n, b, cpc_b(r)),
+                            );
+                            revived = None;
+                        }
+                    }
+                    if [2usize, 9, 14, 21].contains(&ci) {
+                        revived = CpcSketch::deserialize(&s.serialize()).ok();
+                    }
+                    if let Some(c) = &continued {
+                        ctx.evals(1);
+                        if c.num_coupons() != s.num_coupons() {
+                            ctx.violation(
+                                "a union result that keeps receiving the stream loses coupons",
+                                format!("CPC lg_k={} n={}: {} coupons, a sketch of the same items has {}", lg_k, n, c.num_coupons(), s.num_coupons()),
+                            );
+                            continued = None;
+                        }
+                    }
+                }
                 det_check(ctx, &format!("CPC lg_k={} streamed", lg_k), n, &b, s.is_empty());
                 acc_stream[ci].add(n, &b);
                 if ci % 4 == 1 {
@@ -353,6 +404,10 @@ fn cpc_config(ctx: &mut Ctx, case: &Json, stats: &mut Vec<Json>) {
                     let r = u.to_sketch();
                     let bu = cpc_b(&r);
                     det_check(ctx, &format!("CPC lg_k={} merged", lg_k), n, &bu, r.is_empty());
+                    if trial < 48 && continued.is_none() && n as f64 >= 9.0 * k && r.num_coupons() == s.num_coupons() {
+                        // (the parts cover every item so far: the result starts with the same coupons as `s`)
+                        continued = Some(r.clone());
+                    }
                     // the merged estimate is ICON: a deterministic function of (lg_k, C), defined as the n whose
                     // expected coupon count is C. A shift of the approximation is a bias, seen here without noise.
                     let c = r.num_coupons() as u64;
